@@ -178,6 +178,49 @@ theorem login_step (cfg : Cfg) (st : State) (log : List Call) (now : Nat) (backe
           exact ⟨⟨e.time, l, pw, e.user⟩, hej pw hd.symm, rfl, rfl, rfl, Nat.le_of_not_gt hage⟩
       · exact backendPath_step cfg _ _ log now backend l pw _ hinv' (by intro d hd; cases hd; exact ⟨_, rfl⟩)
 
+/-- a back-end error never puts anything into the caches: the invariant is kept, the log is unchanged, and an answer
+    given nevertheless comes from an entry that a recorded back-end answer justifies -/
+theorem loginFault_step (cfg : Cfg) (st : State) (log : List Call) (now : Nat) (l pw : Str) (h : Inv cfg st log) :
+    Inv cfg (loginFault cfg st now l pw).2 log ∧
+    (∀ r, (loginFault cfg st now l pw).1 = some r →
+      (r.user ≠ [] → ∃ c ∈ log, c.login = l ∧ c.pw = pw ∧ c.result = r.user ∧ age now c.time ≤ cfg.succExp) ∧
+      (r.user = [] → ∃ c ∈ log, c.login = l ∧ c.pw = pw ∧ c.result = [] ∧ age now c.time ≤ cfg.failExp)) := by
+  obtain ⟨hs, hf⟩ := h
+  have hfail' : ∀ l pw t, sweep cfg now st.failed (l, digest cfg.failSalt l pw) = some t → (⟨t, l, pw, []⟩ : Call) ∈ log :=
+    fun l pw t hm => hf l pw t (sweep_some hm).1
+  have hinv' : Inv cfg ⟨st.succ, sweep cfg now st.failed⟩ log := ⟨hs, hfail'⟩
+  unfold loginFault
+  simp only
+  split
+  · rename_i hsome
+    obtain ⟨t, ht⟩ := Option.isSome_iff_exists.1 hsome
+    refine ⟨hinv', ?_⟩
+    intro r hr
+    simp only [Option.some.injEq] at hr
+    subst hr
+    refine ⟨(by intro hx; exact absurd rfl hx), fun _ => ?_⟩
+    exact ⟨⟨t, l, pw, []⟩, hf l pw t (sweep_some ht).1, rfl, rfl, rfl, (sweep_some ht).2⟩
+  · split
+    · exact ⟨hinv', by intro r hr; cases hr⟩
+    · rename_i e hsl
+      obtain ⟨heu, hej⟩ := hs l e hsl
+      split
+      · rename_i hd
+        split
+        · refine ⟨⟨?_, hfail'⟩, by intro r hr; cases hr⟩
+          intro l' e' hm
+          rcases upd_some hm with ⟨_, hv⟩ | ⟨_, hm'⟩
+          · simp at hv
+          · exact hs l' e' hm'
+        · rename_i hage
+          refine ⟨hinv', ?_⟩
+          intro r hr
+          simp only [Option.some.injEq] at hr
+          subst hr
+          refine ⟨fun _ => ?_, (by intro hx; exact absurd hx heu)⟩
+          exact ⟨⟨e.time, l, pw, e.user⟩, hej pw hd.symm, rfl, rfl, rfl, Nat.le_of_not_gt hage⟩
+      · exact ⟨hinv', by intro r hr; cases hr⟩
+
 /-! ### independence of logins -/
 
 /-- everything `login … l …` can see of the caches: the successful entry of `l` and the failed entries under `l` -/
